@@ -48,6 +48,34 @@ fn main() {
             std::process::exit(run_check(info, tier, seed_from_env()));
         }
         "replay" => {
+            // Run the case in a child process so that an abort / stack overflow / OOM of the
+            // code under test is reported as a violation of the replayed case.
+            if args.len() < 4 {
+                usage();
+            }
+            let info = find(&args[2]);
+            let exe = std::env::current_exe().expect("current_exe");
+            let status = std::process::Command::new(exe)
+                .arg("replay-inner")
+                .arg(&args[2])
+                .arg(&args[3])
+                .status();
+            match status {
+                Ok(st) => match st.code() {
+                    Some(c @ 0..=2) => std::process::exit(c),
+                    _ => {
+                        println!("VIOLATION property={} replay={}", info.id, &args[3]);
+                        eprintln!("  replay process died ({st}) while running this case");
+                        std::process::exit(1);
+                    }
+                },
+                Err(e) => {
+                    eprintln!("cannot spawn replay process: {e}");
+                    std::process::exit(2);
+                }
+            }
+        }
+        "replay-inner" => {
             if args.len() < 4 {
                 usage();
             }
